@@ -1596,6 +1596,10 @@ pub async fn reload_config(client_server_map: ClientServerMap) -> Result<bool, E
     };
 
     let new_config = get_config();
+    #[cfg(feature = "verif_hooks")]
+    crate::verif::event("reload.stored", "");
+    #[cfg(feature = "verif_hooks")]
+    crate::verif::point("reload.after_store").await;
 
     match CachedResolver::from_config().await {
         Ok(_) => (),
@@ -1605,8 +1609,12 @@ pub async fn reload_config(client_server_map: ClientServerMap) -> Result<bool, E
     if old_config != new_config {
         info!("Config changed, reloading");
         ConnectionPool::from_config(client_server_map).await?;
+        #[cfg(feature = "verif_hooks")]
+        crate::verif::event("reload.end", "\"changed\":true");
         Ok(true)
     } else {
+        #[cfg(feature = "verif_hooks")]
+        crate::verif::event("reload.end", "\"changed\":false");
         Ok(false)
     }
 }
